@@ -74,6 +74,7 @@ let () =
        Compare.has_ge := has "--has-ge";
        Compare.rank0 := has "--rank0";
        Compare.alias := has "--alias";
+       Compare.rebased := has "--rebased";
        for k = 1 to count do
          let id = Printf.sprintf "%s%d" (get "--prefix" "c" args) k in
          let cs, kinds = Compare.gen_case () in
